@@ -33,7 +33,7 @@ ASSUMPTIONS = [
     "names removed by a mutation are not reused by another entry of a different type in the same case",
 ]
 BUDGET = {"quick": (220, 4), "thorough": (20000, 16)}
-REQUIRED = ["unchanged", "altered", "missing_file", "missing_dir", "new_file", "nested_mutation", "combined", "ignored_only", "per_file_enum", "trailing_slash_root", "big_file_tail_altered"]
+REQUIRED = ["unchanged", "altered", "missing_file", "missing_dir", "new_file", "nested_mutation", "combined", "ignored_only", "per_file_enum", "trailing_slash_root", "big_file_tail_altered", "new_file_named_like_recorded"]
 
 P1 = {
     "kinds": ["create"] * 5 + ["create_sf"] * 2 + ["put_new"] * 3 + ["mkdir"],
@@ -43,7 +43,7 @@ P1 = {
     "min_top": 1,
     "flags": {"-n": 0.15, "-v": 0.15},
 }
-MUT = ["overwrite_same", "overwrite_diff", "append", "truncate", "empty", "rm", "rmdir_empty", "rmtree", "add", "add_dir", "mv", "touch", "dsstore"]
+MUT = ["overwrite_same", "overwrite_diff", "append", "truncate", "empty", "rm", "rmdir_empty", "rmtree", "add", "add_dir", "mv", "touch", "dsstore", "add_twin", "add_twin"]
 
 
 @st.composite
@@ -105,6 +105,30 @@ def _scn(draw):
                 muts.append({"kind": "add", "path": p, "spec": draw(gen.contents())})
                 m.files[p] = "x"
             used.add(p)
+        elif kind == "add_twin":
+            # a new file whose path relative to its own history equals the recorded relative path of a file of another
+            # history (root/readme.txt recorded, root/card/readme.txt new), or at least shares its name
+            cand = []
+            allroots = [""] + [r for r in m.roots if r]
+            for f in sorted(m.files):
+                own = max((r for r in allroots if r == "" or f.startswith(r + "/")), key=len)
+                relf = f[len(own) + 1:] if own else f
+                for r in allroots:
+                    q = (r + "/" if r else "") + relf
+                    if r != own and q not in m.files and q not in m.dirs and not any(x in m.files for x in m.parents(q)):
+                        cand.append(q)
+                for d in sorted(m.dirs):
+                    q = d + "/" + f.rsplit("/", 1)[-1]
+                    if q not in m.files and q not in m.dirs and len(cand) < 40:
+                        cand.append(q)
+            cand = [q for q in cand if q not in used and "ascmhl" not in q.split("/")]
+            if cand:
+                p = draw(st.sampled_from(cand))
+                muts.append({"kind": "add", "path": p, "spec": draw(gen.contents()), "twin": True})
+                for d in m.parents(p):
+                    m.dirs.add(d)
+                m.files[p] = "x"
+                used.add(p)
         elif kind == "mv":
             cand = files + dirs
             if cand:
@@ -275,6 +299,8 @@ def run_case(scn, ctx):
                 w.rmtree(touched)
             elif k == "add":
                 w.put(touched, mu["spec"])
+                if mu.get("twin"):
+                    ctx.event("new_file_named_like_recorded")
             elif k == "add_dir":
                 w.mkdir(touched)
             elif k == "mv":
